@@ -147,6 +147,7 @@ func c14(c *Ctx) {
 	rs := "litefs.(*Store).restoreDBFromBackup"
 	// (the order "fetch, then create the local database" is no longer required: since F35 an empty local
 	// database left behind by a failed download is replaced on the next sync like any database that is behind.)
+	c.pageSizeBeforeCreate("restore")
 	c.Before("restore/lock-first", rs, p.PlainCalls("litefs.(*DB).recover", "litefs.(*DB).WriteLTXFileAt", "litefs.(*DB).ApplyLTXNoLock"), p.PlainCalls("litefs.(*DB).AcquireWriteLock"), 3, "recover, write and apply run under the write lock", "C11")
 	c.Before("restore/recover-before-write", rs, p.PlainCalls("litefs.(*DB).WriteLTXFileAt"), p.PlainCalls("litefs.(*DB).recover"), 1, "pending journal/WAL state is cleared before the snapshot is written", "")
 	c.Before("restore/write-before-apply", rs, p.PlainCalls("litefs.(*DB).ApplyLTXNoLock"), p.PlainCalls("litefs.(*DB).WriteLTXFileAt"), 1, "the snapshot is published as an LTX file before it is applied", "")
